@@ -2,7 +2,7 @@
 """seed_matrix.py [names...] -- runs the quick checks against every confirmed seeded change (in scratch copies of /repo,
 selected through VERIF_REPO, results in a scratch VERIF_OUT) and records in seeded/<name>/meta.json which checks detect it."""
 import os, sys, json, subprocess, shutil, concurrent.futures as cf
-V = "/verif"
+V = os.environ.get("VERIF_HOME", "/verif")     # (a snapshot copy of /verif can be used so that the harnesses may be edited meanwhile)
 # which checks to try per property (the property's own check first)
 ALSO = {"C01": ["C01", "C03"], "C02": ["C02", "C09"], "C08": ["C08", "C02"], "C10": ["C10", "C08"], "C13": ["C13", "C14"], "C09": ["C09"], "C12": ["C12"], "C11": ["C11"], "C07": ["C07"]}
 def run_seed(name):
